@@ -361,8 +361,9 @@ defvjp(anp.repeat, grad_repeat)
 
 
 def grad_tile(ans, x, reps):
-    reps = [reps] if anp.isscalar(reps) else reps
+    reps = [reps] if anp.isscalar(reps) else list(reps)
     x_shape = anp.shape(x)
+    reps = [1] * (len(x_shape) - len(reps)) + reps
 
     def vjp(g):
         for axis, rep in enumerate(reps):
